@@ -10,7 +10,8 @@ connection class over a virtual event loop (vt/c11lib.py):
 * cassandra.io.twistedreactor.TwistedConnection on a virtual reactor (callFromThread = append + scheduling
   point) with twisted's own transport write buffer over a fake socket that may take only part of a write.
 
-2-3 pusher threads x 1-2 messages each, optionally more messages pushed from the loop thread itself, sizes
+2-3 pusher threads x 1-2 messages each, optionally more messages pushed from the loop thread itself (every
+ordered pair -- thorough: triple -- of sizes pushed inside one loop callback, alone and against a pusher), sizes
 around out_buffer_size (lowered to 8): every schedule within the preemption bound is executed and the bytes
 the fake socket received are judged by an independent oracle on tagged messages.
 """
@@ -30,9 +31,13 @@ META = {
             'pushed by 2 threads (asyncio: all schedules with <=1 preemption and <=1 delayed sock_sendall, <=2 preemptions for the '
             'smallest configuration; twisted: <=2 preemptions, <=1 short socket write), plus 2 messages per thread, 1-2 pushes from '
             'the loop thread itself (create_task branch) arriving at any moment, pushers starting while the connection\'s watcher '
-            'coroutines and OPTIONS push are still queued, and 3 pusher threads.  Thorough: <=2 preemptions for every size pair, <=2 '
+            'coroutines and OPTIONS push are still queued, and 3 pusher threads.  Pushes made by the loop/reactor thread inside ONE '
+            'callback (what a response callback that sends follow-up requests does): every ordered pair of sizes from {1,7,8,9,17}, '
+            'i.e. every mix of single-chunk and chunked messages in either order, for both reactors, once with the loop thread '
+            'alone and once racing a 9-byte message of a pusher thread.  Thorough: <=2 preemptions for every size pair, <=2 '
             'delayed sendalls, 3 pushers over {1,9,17}^3, 2x2 messages, loop-thread pushes and cold starts over {1,9,17}^2; twisted <=3 '
-            'preemptions for every pair.  Scheduling points: every source line of push/_push_msg/handle_write in whichever thread '
+            'preemptions for every pair; one-callback loop-thread pushes: every ordered size triple over {1,7,8,9,17} alone, every pair '
+            'against a pusher of each size in {1,9,17}, every triple over {1,9,17} against a pusher.  Scheduling points: every source line of push/_push_msg/handle_write in whichever thread '
             'runs it, every loop turn (one ready handle), every call_soon_threadsafe/callFromThread.  Oracle: the bytes the fake '
             'socket received are a concatenation of the pushed messages, each whole, each exactly once, in an order consistent with '
             'every thread\'s push order, judged when the loop is idle and all threads are done.',
@@ -64,6 +69,11 @@ def plan(ctx):
             out.append(('asyncio pushes from the loop thread, bound 1', {'reactor': A, 'msgs': m, 'loop': lp, 'later': 1}, 1))
         out.append(('asyncio 2 pushers + a push from the loop thread, bound 1, no delayed sendall',
                     {'reactor': A, 'msgs': [[1], [9]], 'loop': [9], 'later': 0}, 1))
+        for a, b in pairs:
+            out.append(('asyncio loop thread alone pushes every ordered size pair inside one callback, bound 1, <=1 delayed sendall',
+                        {'reactor': A, 'msgs': [], 'loop': [a, b], 'later': 1}, 1))
+            out.append(('asyncio 1 pusher + every ordered size pair pushed by the loop thread inside one callback, bound 1, '
+                        'no delayed sendall', {'reactor': A, 'msgs': [[9]], 'loop': [a, b], 'later': 0}, 1))
         for m in ([[9], [17]], [[1], [9]]):
             out.append(('asyncio cold start (watchers and OPTIONS still queued), bound 1',
                         {'reactor': A, 'msgs': m, 'later': 1, 'cold': True}, 1))
@@ -88,6 +98,18 @@ def plan(ctx):
                         {'reactor': A, 'msgs': [[a]], 'loop': [b, 9], 'later': 1}, 1))
             out.append(('asyncio cold start (watchers and OPTIONS still queued), bound 1',
                         {'reactor': A, 'msgs': [[a], [b]], 'later': 1, 'cold': True}, 1))
+        for a, b in pairs:
+            out.append(('asyncio loop thread alone pushes every ordered size pair inside one callback, bound 2, <=2 delayed sendalls',
+                        {'reactor': A, 'msgs': [], 'loop': [a, b], 'later': 2}, 2))
+            for p in three:
+                out.append(('asyncio 1 pusher {1,9,17} + every ordered size pair pushed by the loop thread inside one callback, '
+                            'bound 1, <=1 delayed sendall', {'reactor': A, 'msgs': [[p]], 'loop': [a, b], 'later': 1}, 1))
+        for t in itertools.product(S, repeat=3):
+            out.append(('asyncio loop thread alone pushes every ordered size triple inside one callback, bound 1, <=2 delayed sendalls',
+                        {'reactor': A, 'msgs': [], 'loop': list(t), 'later': 2}, 1))
+        for t in itertools.product(three, repeat=3):
+            out.append(('asyncio 1 pusher + every ordered triple over {1,9,17} pushed by the loop thread inside one callback, bound 1, '
+                        'no delayed sendall', {'reactor': A, 'msgs': [[9]], 'loop': list(t), 'later': 0}, 1))
         out.append(('asyncio 1 pusher + a push from the loop thread, bound 2', {'reactor': A, 'msgs': [[1]], 'loop': [9], 'later': 1}, 2))
         out.append(('asyncio 1 pusher + a push from the loop thread, bound 2', {'reactor': A, 'msgs': [[9]], 'loop': [1], 'later': 1}, 2))
         out.append(('asyncio cold start, bound 2', {'reactor': A, 'msgs': [[1], [1]], 'later': 0, 'cold': True}, 2))
@@ -103,6 +125,11 @@ def plan(ctx):
                 out.append(('twisted pushes from the reactor thread, bound 2', {'reactor': T, 'msgs': m, 'loop': lp, 'partial': 1}, 2))
             out.append(('twisted 2 pushers + pushes from the reactor thread, bound 1',
                         {'reactor': T, 'msgs': [[1], [9]], 'loop': [17], 'partial': 1}, 1))
+            for a, b in pairs:
+                out.append(('twisted reactor thread alone pushes every ordered size pair inside one call, bound 2, <=1 short write',
+                            {'reactor': T, 'msgs': [], 'loop': [a, b], 'partial': 1}, 2))
+                out.append(('twisted 1 pusher + every ordered size pair pushed by the reactor thread inside one call, bound 1, '
+                            '<=1 short write', {'reactor': T, 'msgs': [[9]], 'loop': [a, b], 'partial': 1}, 1))
             out.append(('twisted 3 pushers, bound 2, no short write', {'reactor': T, 'msgs': [[9], [1], [17]], 'partial': 0}, 2))
         else:
             for a, b in pairs:
@@ -114,6 +141,16 @@ def plan(ctx):
                             {'reactor': T, 'msgs': [[a]], 'loop': [b, 9], 'partial': 1}, 2))
                 out.append(('twisted 2 pushers + a push from the reactor thread, bound 1',
                             {'reactor': T, 'msgs': [[a], [b]], 'loop': [9], 'partial': 1}, 1))
+            for a, b in pairs:
+                for p in (1, 9, 17):
+                    out.append(('twisted 1 pusher {1,9,17} + every ordered size pair pushed by the reactor thread inside one call, '
+                                'bound 2, <=1 short write', {'reactor': T, 'msgs': [[p]], 'loop': [a, b], 'partial': 1}, 2))
+            for t in itertools.product(S, repeat=3):
+                out.append(('twisted reactor thread alone pushes every ordered size triple inside one call, bound 3, <=2 short writes',
+                            {'reactor': T, 'msgs': [], 'loop': list(t), 'partial': 2}, 3))
+            for t in itertools.product((1, 9, 17), repeat=3):
+                out.append(('twisted 1 pusher + every ordered triple over {1,9,17} pushed by the reactor thread inside one call, '
+                            'bound 2, <=1 short write', {'reactor': T, 'msgs': [[9]], 'loop': list(t), 'partial': 1}, 2))
             for a, b, c in itertools.product((1, 9, 17), repeat=3):
                 out.append(('twisted 3 pushers {1,9,17}^3, bound 2', {'reactor': T, 'msgs': [[a], [b], [c]], 'partial': 1}, 2))
     return out
@@ -219,7 +256,8 @@ def run(ctx):
     ctx.cov['rule'] = ('evaluations = executions = distinct (configuration, schedule, environment script) triples, every one within the '
                        'group\'s preemption bound, all run to quiescence; states = executions (stateless search); non-trivial = '
                        'execution in which two messages of different threads were in flight together (each push() entered before the '
-                       'other message\'s last byte reached the socket); outcomes = reactor + order of whole messages on the socket')
+                       'other message\'s last byte reached the socket; executions in which the loop thread alone pushes are therefore never '
+                       'counted as non-trivial, see the counters executions_with_*_inside_one_loop_callback); outcomes = reactor + order of whole messages on the socket')
     ctx.cov['exhaustive'] = True
     ctx.assume('line-level atomicity of CPython statements (DESIGN.md 3.1); preemption bounds as listed per group')
     ctx.assume('a sock_sendall that cannot complete at once completes one loop turn later, whole (no other coroutine of the driver '
